@@ -611,6 +611,92 @@ example : (enumCodec [("reposize", "MetricRepoSize"), ("freespace", "MetricFreeS
     [("MetricFreeSpace", "freespace"), ("MetricRepoSize", "reposize")]).RoundTrips :=
   enum_roundtrips _ _ (by decide)
 
+
+/-! ## 2b. `Validate()` as a conjunction with guards and cross-field conjuncts -/
+
+theorem validate_reject_iff (e : Env) (cs : List Conj) :
+    validate e cs = .reject ↔ ∃ c ∈ cs, c.fires e = some true := by
+  unfold validate
+  cases h : cs.any (fun c => c.fires e == some true) with
+  | true =>
+    simp only [if_true, true_iff]
+    obtain ⟨c, hc, hf⟩ := List.any_eq_true.mp h
+    exact ⟨c, hc, by simpa using hf⟩
+  | false =>
+    cases h3 : cs.all (fun c => c.fires e == some false) <;>
+      simp only [Bool.false_eq_true, if_false, if_true, reduceCtorEq, false_iff] <;>
+      (rintro ⟨c, hc, hf⟩
+       have hb : (c.fires e == some true) = true := by simp [hf]
+       have : cs.any (fun c => c.fires e == some true) = true := List.any_eq_true.mpr ⟨c, hc, hb⟩
+       rw [h] at this; cases this)
+
+theorem validate_accept_iff (e : Env) (cs : List Conj) :
+    validate e cs = .accept ↔ ∀ c ∈ cs, c.fires e = some false := by
+  unfold validate
+  cases h : cs.any (fun c => c.fires e == some true) with
+  | true =>
+    simp only [if_true, reduceCtorEq, false_iff]
+    intro h2
+    obtain ⟨c, hc, hf⟩ := List.any_eq_true.mp h
+    have := h2 c hc
+    simp [this] at hf
+  | false =>
+    cases h3 : cs.all (fun c => c.fires e == some false) with
+    | true =>
+      simp only [Bool.false_eq_true, if_false, if_true, true_iff]
+      intro c hc; simpa using List.all_eq_true.mp h3 c hc
+    | false =>
+      simp only [Bool.false_eq_true, if_false, reduceCtorEq, false_iff]
+      intro h2
+      have : cs.all (fun c => c.fires e == some false) = true :=
+        List.all_eq_true.mpr (fun c hc => by simp [h2 c hc])
+      rw [h3] at this; cases this
+
+/-- **LoadJSON accepts ⇒ Validate holds** for every modelled conjunct: no conjunct fires on what was loaded -/
+theorem load_accept_valid (applied : Option Env) (cs : List Conj) (e : Env) (h : loadSection applied cs = some e) :
+    applied = some e ∧ validate e cs ≠ .reject ∧ ∀ c ∈ cs, c.fires e ≠ some true := by
+  cases applied with
+  | none => simp [loadSection] at h
+  | some e' =>
+    simp only [loadSection] at h
+    by_cases hv : validate e' cs = .reject
+    · simp [hv] at h
+    · simp [hv] at h; subst h
+      refine ⟨rfl, hv, fun c hc hf => hv ((validate_reject_iff _ _).mpr ⟨c, hc, hf⟩)⟩
+
+/-- … and what Validate rejects is refused at load time (an error value, `none`) -/
+theorem load_refuses_rejected (cs : List Conj) (e : Env) (h : validate e cs = .reject) :
+    loadSection (some e) cs = none := by
+  simp [loadSection, h]
+
+/-- a conjunct over two integer fields fires exactly on its side of the boundary -/
+theorem cmp_two_fields (e : Env) (a b : String) (x y : Int) (o : Op)
+    (ha : e.get ("f:" ++ a) = .int x) (hb : e.get ("f:" ++ b) = .int y) :
+    (Cond.cmp (.fld a) o (.fld b)).eval e = some (o.holds x y) := by
+  simp [Cond.eval, Tm.eval, ha, hb, cmpVal]
+
+/-- a conjunct whose guard is off never fires, whatever its condition (metrics/tracing when disabled) -/
+theorem guard_off (e : Env) (c : Conj) (g : Cond) (h : c.guard = some g) (hg : g.eval e = some false) :
+    c.fires e = some false := by
+  simp [Conj.fires, h, hg, and3]
+
+/-- with the guard on, the conjunct is its condition -/
+theorem guard_on (e : Env) (c : Conj) (g : Cond) (h : c.guard = some g) (hg : g.eval e = some true) (b : Bool)
+    (hc : c.cond.eval e = some b) : c.fires e = some b := by
+  cases b <;> simp [Conj.fires, h, hg, hc, and3]
+
+/-- the `low_water > high_water` conjunct of the cluster section, on both sides of its boundary -/
+example : validate [("f:A", .int 5), ("f:B", .int 5)] [{ guard := none, cond := .cmp (.fld "A") .gt (.fld "B") }] = .accept ∧
+    validate [("f:A", .int 6), ("f:B", .int 5)] [{ guard := none, cond := .cmp (.fld "A") .gt (.fld "B") }] = .reject := by decide
+
+/-- **defaults validate, cross-field and guarded conjuncts included**: for no section does a conjunct fire on the
+values `Default()` gives; for the sections all of whose conjuncts read evident defaults the verdict is `accept` -/
+theorem table_defaults_validate :
+    Gen.validates.all (fun (_, cs, env) => validate env cs != .reject) = true ∧
+    (Gen.validates.filter (fun (_, cs, env) => validate env cs == .accept)).length ≥ 8 ∧
+    Gen.validates.length = Gen.sections.length := by
+  refine ⟨by decide, by decide, by decide⟩
+
 /-! ## 3. config.Manager and the remote `source` (model `Src` in Model/C15.lean)
 
 For every URL type, every web and every prior Manager state. -/
